@@ -72,6 +72,106 @@ Proof.
   - intros. apply prune_subseq.
 Qed.
 
+(** ---------- clause 5: pruning keeps a representative of every class of matches ---------- *)
+Lemma pair_eqb_eq a b : pair_eqb a b = true <-> a = b.
+Proof.
+  unfold pair_eqb. destruct a as [a1 a2], b as [b1 b2]; simpl.
+  rewrite andb_true_iff, !N.eqb_eq. split; [intros [-> ->]; reflexivity | intros [= -> ->]; auto].
+Qed.
+
+Lemma pair_mem_spec x l : pair_mem x l = true <-> In x l.
+Proof.
+  unfold pair_mem. rewrite existsb_exists. split.
+  - intros (y & Hy & E). apply pair_eqb_eq in E. subst. exact Hy.
+  - intros H. exists x. split; [exact H | apply pair_eqb_eq; reflexivity].
+Qed.
+
+Lemma set_eqb_spec a b : set_eqb a b = true <-> (forall x, In x a <-> In x b).
+Proof.
+  unfold set_eqb. rewrite andb_true_iff, !forallb_forall. split.
+  - intros [H1 H2] x. split; intros H; [apply pair_mem_spec, H1, H | apply pair_mem_spec, H2, H].
+  - intros H. split; intros x Hx; apply pair_mem_spec, H, Hx.
+Qed.
+
+(** the image of a pattern node under an automorphism given as a list of pairs (sigma[p]) *)
+Definition app_map (s : mapping) (p : N) : N := match assoc p s with Some q => q | None => p end.
+
+Lemma in_act s m p h : In (p, h) (act s m) <-> exists p', In (p', h) m /\ p = app_map s p'.
+Proof.
+  unfold act, app_map. rewrite in_map_iff. split.
+  - intros ([p' h'] & E & Hin). simpl in E. inversion E; subst. exists p'. split; auto.
+  - intros (p' & Hin & ->). exists (p', h). split; auto.
+Qed.
+
+Section Complete.
+Variable X : Type.
+Variable key : X -> mapping.
+Variable A : list mapping.
+
+(** [y] stands for [x]: the same element, the same set of (pattern node, host node) items, or the items of [x]
+    are those of [y] with the pattern side moved by one of the automorphisms *)
+Definition covers (y x : X) : Prop :=
+  y = x \/ set_eqb (key x) (key y) = true \/ exists s, In s A /\ set_eqb (key x) (act s (key y)) = true.
+
+Lemma dedup_aut_go_complete xs : forall seen x, In x xs ->
+  existsb (set_eqb (key x)) seen = true \/ exists y, In y (dedup_aut_go key A xs seen) /\ covers y x.
+Proof.
+  induction xs as [|h r IH]; intros seen x Hin; [destruct Hin|].
+  simpl. destruct Hin as [->|Hin].
+  - destruct (existsb (set_eqb (key x)) seen) eqn:E; [left; reflexivity|].
+    right. exists x. split; [left; reflexivity | left; reflexivity].
+  - destruct (existsb (set_eqb (key h)) seen) eqn:E.
+    + apply IH; exact Hin.
+    + destruct (IH (key h :: map (fun s => act s (key h)) A ++ seen) x Hin) as [Hs | (y & Hy & Hc)].
+      * simpl in Hs. apply orb_true_iff in Hs. destruct Hs as [Hs|Hs].
+        { right. exists h. split; [left; reflexivity|]. right; left; exact Hs. }
+        rewrite existsb_app in Hs. apply orb_true_iff in Hs. destruct Hs as [Hs|Hs]; [|left; exact Hs].
+        apply existsb_exists in Hs. destruct Hs as (m & Hm & Heq).
+        apply in_map_iff in Hm. destruct Hm as (s & <- & Hs).
+        right. exists h. split; [left; reflexivity|]. right; right. exists s. split; assumption.
+      * right. exists y. split; [right; exact Hy | exact Hc].
+Qed.
+
+Lemma dedup_aut_complete xs x : In x xs -> exists y, In y (dedup_aut key A xs) /\ covers y x.
+Proof.
+  intros Hin. destruct (dedup_aut_go_complete xs [] x Hin) as [H|H]; [discriminate | exact H].
+Qed.
+End Complete.
+
+Lemma prune_complete_all (X : Type) (key : X -> mapping) (rc : graph) (raw : list X) x :
+  In x raw ->
+  exists y, In y (prune key rc raw) /\
+    (y = x \/ (forall ph, In ph (key x) <-> In ph (key y)) \/
+     exists s, In s (rule_auts rc) /\
+       forall p h, In (p, h) (key x) <-> exists p', In (p', h) (key y) /\ p = app_map s p').
+Proof.
+  intros Hin. unfold prune. destruct (1 <? length raw)%nat.
+  - destruct (dedup_aut_complete X key (rule_auts rc) raw x Hin) as (y & Hy & [E | [E | (s & Hs & E)]]).
+    + exists y. split; auto.
+    + exists y. split; auto. right; left. apply set_eqb_spec; exact E.
+    + exists y. split; auto. right; right. exists s. split; auto.
+      intros p h. rewrite <- in_act. apply (proj1 (set_eqb_spec _ _) E (p, h)).
+  - exists x. split; auto.
+Qed.
+
+(** consequence: any result function that does not depend on the item order of a match and is invariant under
+    the rule automorphisms takes the same set of values on the kept matches as on all raw matches *)
+Lemma prune_same_results (X R : Type) (key : X -> mapping) (rc : graph) (raw : list X) (res : mapping -> R) :
+  (forall m m', (forall ph, In ph m <-> In ph m') -> res m = res m') ->
+  (forall s x, In s (rule_auts rc) -> In x raw -> res (act s (key x)) = res (key x)) ->
+  forall r, In r (map (fun x => res (key x)) raw) <-> In r (map (fun x => res (key x)) (prune key rc raw)).
+Proof.
+  intros Hext Hinv r. rewrite !in_map_iff. split.
+  - intros (x & <- & Hin).
+    destruct (prune_complete_all X key rc raw x Hin) as (y & Hy & [E | [E | (s & Hs & E)]]).
+    + exists y. subst. auto.
+    + exists y. split; auto. apply Hext. intros ph. symmetry. apply E.
+    + exists y. split; auto.
+      rewrite <- (Hinv s y Hs (subseq_in _ _ _ (prune_subseq X key rc raw) Hy)).
+      apply Hext. intros [p h]. rewrite in_act. symmetry. apply E.
+  - intros (y & <- & Hy). exists y. split; auto. exact (subseq_in _ _ _ (prune_subseq X key rc raw) Hy).
+Qed.
+
 (** non-vacuity: a list on which something is dropped and something is kept *)
 Example dedup_aut_drops :
   dedup_aut (fun m => m) [[(1, 2); (2, 1)]]%N [[(1, 7); (2, 8)]; [(1, 8); (2, 7)]; [(1, 7); (2, 9)]]%N
